@@ -6,7 +6,7 @@ from checks.apihist import Lit, parse_lit, rand_lit, conforming_history, trim
 LEVEL = 'proof'
 
 def sel(ln):
-    return ln.split(' ', 1)[0] in ('frame', 'point', 'analog', 'pointcol', 'analogcol', 'snap')
+    return ln.split(' ', 1)[0] in ('frame', 'frameR', 'frameD', 'point', 'analog', 'pointcol', 'analogcol', 'snap')
 def proj(l):
     return l if l[:2] in ('D ', 'F ', 'p ', 's ', 'c ', 'ok', 'th') else None
 
@@ -37,12 +37,44 @@ def index_matrix(rng, tier):
             cases.append(('m%d_%s' % (n, tgt), b.lines, b.kinds))
     return cases
 
+def reuse_cases(rng, tier):
+    """one caller frame (a register) stored at several places — appended, put over existing frames, a stored frame handed back at
+    another index — and a column added afterwards: every frame must gain exactly that one column"""
+    cases = []
+    for i in range(20 if tier == 'quick' else 1500):
+        b = apihist.Builder(rng, snap=False)
+        names = apihist.uniq_names(rng, rng.choice([1, 2]), pad=False); chans = apihist.uniq_names(rng, rng.choice([0, 1, 2]), b'c', pad=False)
+        for nm in names: b.declare_point(nm); b.sh.pts.append(trim(nm))
+        for c in chans: b.declare_analog(c); b.sh.chans.append(trim(c))
+        b.set_rate(b'POINT', 100.0)
+        nsub = 0
+        if chans: nsub = rng.choice([1, 2]); b.set_rate(b'ANALOG', 100.0 * nsub)
+        n = rng.choice([3, 4, 6])
+        for _ in range(n): b.frame(rand_lit(rng, b.sh.pts, b.sh.chans, nsub), '-')
+        b.raw('F.new 0'); b.raw('F.set 0 ' + rand_lit(rng, b.sh.pts, b.sh.chans, nsub).text())
+        how = rng.choice(['replace-twice', 'replace-and-append', 'stored-frame-handed-back'])
+        if how == 'replace-twice':
+            i1, i2 = rng.sample(range(n), 2); b.emit('frameR 0 %d 0' % i1, 'frameR-replace'); b.emit('frameR 0 %d 0' % i2, 'frameR-replace')
+        elif how == 'replace-and-append':
+            b.emit('frameR 0 %d 0' % rng.randrange(n), 'frameR-replace'); b.emit('frameR 0 - 0', 'frameR-append')
+        else:
+            src, dst = rng.sample(range(n), 2); b.emit('frameD 0 %d %d' % (dst, src), 'frameD-replace')
+        b.raw('snap 0')
+        if chans and rng.random() < 0.5: b.emit('analog 0 ' + hx(apihist.uniq_names(rng, 1, b'nc', False)[0]), 'analog')
+        else: b.emit('point 0 ' + hx(apihist.uniq_names(rng, 1, b'np', False)[0]), 'point')
+        b.raw('snap 0')
+        cases.append(('r%d' % i, b.lines, b.kinds))
+    return cases
+
 def run(rep, work, rng, tier):
     common.proof_part(rep, 'C06', trusted_extra=['Flocq binary32 only in Example C06_nonvacuous (standard-library real-number and classical axioms)'])
     cases = []; kinds = {}
     for cid, lines, ks in index_matrix(rng, tier):
         cases.append((cid, lines))
         for k in ks: kinds[k.split('@')[0]] = kinds.get(k.split('@')[0], 0) + 1
+    for cid, lines, ks in reuse_cases(rng, tier):
+        cases.append((cid, lines))
+        for k in ks: kinds[k] = kinds.get(k, 0) + 1
     n = 150 if tier == 'quick' else 16000
     for i in range(n):
         b = conforming_history(rng, max_frames=rng.choice([4, 8, 12]))
